@@ -19,11 +19,12 @@ structure NackBuf where
   order : List UInt16                 -- FIFO, oldest first
   packets : List (UInt16 × Nat)       -- the HashMap seq → packet(tag)
   recent : List (UInt16 × Nat)        -- `recent_resends`: seq → time of last accepted resend (ms)
-  rtxSsrc : UInt32 := 0               -- `rtx_ssrc_fast`: 0 = RTX disabled
+  rtxSsrc : UInt32 := 0               -- `rtx_ssrc_fast` (lock-free copy for `on_packet_sent`; 0 when RTX is off)
+  rtxOn : Bool := false               -- `rtx_config.is_some()` (what `on_rtcp_received` tests)
   rtxCtr : UInt16 := 0                -- `rtx_seq` (random start in the code; relative here)
   deriving Repr
 
-def NackBuf.new (maxSize : Nat) : NackBuf := ⟨max maxSize 1, [], [], [], 0, 0⟩
+def NackBuf.new (maxSize : Nat) : NackBuf := ⟨max maxSize 1, [], [], [], 0, false, 0⟩
 
 def mapGet : List (UInt16 × Nat) → UInt16 → Option Nat
   | [], _ => none
@@ -87,7 +88,7 @@ def respondRtx (rtx : Bool) (ctr : UInt16) : List (UInt16 × Nat) → List (UInt
 inductive BufOp where
   | push (seq : UInt16) (tag : Nat)
   | sent (ssrc : UInt32) (seq : UInt16) (tag : Nat)   -- `on_packet_sent` of a packet with this SSRC
-  | setRtx (ssrc : UInt32)                            -- `set_rtx(Some{rtx_ssrc}) / set_rtx(None)` (0)
+  | setRtx (cfg : Option UInt32)                      -- `set_rtx(Some{rtx_ssrc, ..})` / `set_rtx(None)`
   | query (now : Nat) (seqs : List UInt16)
   | nack (now : Nat) (seqs : List UInt16)             -- `on_rtcp_received(GenericNack)`
   deriving Repr
@@ -104,13 +105,13 @@ def NackBuf.step (b : NackBuf) : BufOp → NackBuf × BufOut
     -- RTX retransmissions are never buffered
     let b' := if b.rtxSsrc ≠ 0 ∧ ssrc = b.rtxSsrc then b else b.push s t
     (b', .len b'.packets.length)
-  | .setRtx ssrc => ({ b with rtxSsrc := ssrc }, .len b.packets.length)
+  | .setRtx cfg => ({ b with rtxSsrc := cfg.getD 0, rtxOn := cfg.isSome }, .len b.packets.length)
   | .query now seqs =>
     let r := b.select now seqs
     ({ b with recent := r.2 }, .got r.1)
   | .nack now seqs =>
     let r := b.select now seqs
-    let w := respondRtx (b.rtxSsrc != 0) b.rtxCtr r.1
+    let w := respondRtx b.rtxOn b.rtxCtr r.1
     ({ b with recent := r.2, rtxCtr := w.2 }, .resent w.1)
 
 /-- state after a sequence of operations -/
